@@ -33,6 +33,18 @@ def run_verif(argv):
     return status, buf.getvalue()
 
 
+def _check_session(jobs):
+    """tables of several metrics and axes printed in one session: every command gets the same Data object for the same files"""
+    from harness import session
+    n, divs = 0, []
+    with session.shared_data():
+        for job in jobs:
+            k, d = _check(job)
+            n += k
+            divs += d
+    return n, [(site + ":one-session", detail + " [one session on a shared Data object]", rep) for site, detail, rep in divs]
+
+
 def _check(job):
     obj, combos = job
     n = 0
@@ -120,6 +132,17 @@ def run(ctx):
         cases = rng.sample(cases, min(len(cases), 320))
     jobs = [(o, (rng.sample(all_combos, 3) if ctx.tier == "quick" else all_combos)) for o in cases]
     for n, divs in par.pmap(_check, jobs, chunk=2):
+        ctx.evaluations += n
+        for site, detail, rep in divs:
+            ctx.diverge(site, rep, detail=detail)
+    import json as _json
+    groups = {}
+    for job in jobs:
+        groups.setdefault(_json.dumps([job[0]["inputs"], job[0]["hasClim"]], sort_keys=True), []).append(job)
+    sessions = [g[i:i + 12] for key, g in sorted(groups.items()) for i in range(0, len(g), 12)]
+    if ctx.tier == "quick":
+        sessions = rng.sample(sessions, min(len(sessions), 8))
+    for n, divs in par.pmap(_check_session, sessions, chunk=1):
         ctx.evaluations += n
         for site, detail, rep in divs:
             ctx.diverge(site, rep, detail=detail)
